@@ -94,6 +94,46 @@ func (c *Ctx) rulePrune(pkgs ...string) {
 	c.count("walks", n)
 }
 
+// rulePruneGate (C07/C08): whether a walk descends must not depend on the suppression state - otherwise suppressing
+// (or excluding) one diagnostic hides the diagnostics of everything below that node.
+func (c *Ctx) rulePruneGate(pkgs ...string) {
+	P := c.P
+	n := 0
+	for _, pkg := range pkgs {
+		for _, w := range c.walksOfPkg(pkg) {
+			if w.Callback == nil {
+				continue
+			}
+			n++
+			name := FuncName(w.Callback)
+			bad := false
+			allInstrs(w.Callback, func(b *ssa.BasicBlock, ins ssa.Instruction) {
+				r, ok := ins.(*ssa.Return)
+				if !ok || len(r.Results) != 1 {
+					return
+				}
+				if cv, isC := constBool(r.Results[0]); isC && cv {
+					return
+				}
+				guards := P.BlockGuards(b)
+				if _, isC := constBool(r.Results[0]); !isC {
+					guards = append(append([]Lit{}, guards...), literals(P.condFormula(r.Results[0], 0), false)...)
+				}
+				for _, l := range P.Expand(guards) {
+					if call := P.litCallTo(l, fnIgnoreContain); call != nil {
+						bad = true
+						c.fail("PRUNE/GATE", name, P.Pos(r.Pos()), "the walk stops descending depending on ignoreSet.Contains: suppressing or excluding one diagnostic also removes the diagnostics of every node below it")
+					}
+				}
+			})
+			if !bad {
+				c.ok("PRUNE/GATE", name, P.Pos(w.Call.Pos()), "descent does not depend on the suppression state")
+			}
+		}
+	}
+	c.floor("checker walks examined for suppression-dependent pruning", n, 4)
+}
+
 func isConstFalse(v ssa.Value) bool {
 	cv, isC := constBool(v)
 	return isC && !cv
